@@ -24,7 +24,7 @@ METHODS = {"hover": "textDocument/hover", "definition": "textDocument/definition
            "syntaxTree": "glas/syntaxTree"}
 SEQ_ACTIONS = ["M_Dequeue", "M_Skip", "M_SpawnTask", "M_PollTasks", "M_LockVfs", "M_IgnoreChange", "M_ApplyEdit",
                "M_OpenStore", "M_WatchedDelete", "M_UnlockVfs", "M_TakeChange", "M_RequestCancel", "M_AcquireDbWrite",
-               "M_SetInputs", "M_SpawnDiag", "M_Close", "E_Publish", "T_Start", "T_Aborted", "T_ReadVfs", "T_QueryDone",
+               "M_SetInputs", "M_SpawnDiag", "M_Close", "D_Emit", "E_Publish", "T_Start", "T_Aborted", "T_ReadVfs", "T_QueryDone",
                "T_Return", "D_Return", "C_Script", "Finish"]
 PER_SESSION = 25
 DEADLINE = 30.0
